@@ -14,8 +14,8 @@ from tools.vlib import Outcome, sx
 from tools.props import c15_gen as G
 
 MANIFEST = {
-    "level_text": "Coq theorems (Properties/C15.v, no axioms) about byte-level Gallina transcriptions (strings = UTF-8 byte lists, every Rust slice = a slice that returns Panic exactly when Rust panics) of every function of the analysis and generation code that slices a str by computed offsets, unwraps or recurses on substrings: for ALL well-formed UTF-8 input parse_type_structure (with all extract_* helpers and parse_two_type_params), extract_type_names, add_types_prefix, parse_rename_all, the length/range content and bound extraction and seven of the eight naming rules never panic and terminate with the stated fuel; parse_message_from_content, parse_rename and CamelCase naming are refuted with computed witnesses and proved panic-free on the complement of three narrow class predicates. The models are tied to /repo on every run by executing both on the same adversarial strings (exhaustive short strings over an alphabet with 1-4 byte characters, multi-byte characters at every offset of attribute payloads, unbalanced type strings) and comparing value-or-PANIC.",
-    "level_note": "Partial. Proved: panic-freedom and termination of the string-index arithmetic (the mechanism the property names). Not modelled, only searched by the oracle streams (grammar-generated exotic items, /repo and registry sources with truncations/mutations, non-Rust text, each through the real CLI with exit status in {0,1} and through generate_from_config under catch_unwind; isolation of unparsable files compared on generated output modulo timestamp and declaration order): syn, Tera, walkdir, the AST walkers (command/struct/event/channel parsers; their indexing sites are length-guarded, listed in notes/C15.md), the generators, stack exhaustion on pathologically deep nesting. C15_total covers the fuelled string recursions, not the worklists (C07) or graph routines (C20). C15_isolated is checked at run time only, not stated in Coq. Numeric parse of min/max is compared through a python transcription of Rust's u64/f64 grammar.",
+    "level_text": "Coq theorems (Properties/C15.v, no axioms) about byte-level Gallina transcriptions (strings = UTF-8 byte lists, every Rust slice = a slice that returns Panic exactly when Rust panics) of every function of the analysis and generation code that slices a str by computed offsets, unwraps or recurses on substrings: for ALL well-formed UTF-8 input parse_type_structure (with all extract_* helpers and parse_two_type_params), extract_type_names, add_types_prefix, parse_rename_all, parse_rename (repaired restart offset), parse_validator_attributes including parse_message_from_content (repaired: char_indices), apply_naming_convention under all eight rules (repaired camelCase call-site guard) and event_name_to_function never panic and terminate with the stated fuel; the former counterexamples are positive theorems on the same witnesses. One refutation remains: compute_variant_name -> apply_to_variant(CamelCase) slices variant[..1] (introduced by the variant-rule repair), proved panic-free on the complement of one narrow class predicate. The models are tied to the code on every run by executing both on the same adversarial strings (exhaustive short strings over an alphabet with 1-4 byte characters, multi-byte characters at every offset of attribute payloads, unbalanced type strings) and comparing value-or-PANIC.",
+    "level_note": "Partial. Proved: panic-freedom and termination of the string-index arithmetic (the mechanism the property names). Not modelled, only searched by the oracle streams (grammar-generated exotic items, /repo and registry sources with truncations/mutations, non-Rust text, each through the real CLI with exit status in {0,1} and through generate_from_config under catch_unwind; isolation of unparsable files compared on generated output modulo timestamp and declaration order): syn, Tera, walkdir, the AST walkers (command/struct/event/channel parsers; their indexing sites are length-guarded, listed in notes/C15.md), the generators, stack exhaustion on pathologically deep nesting. C15_total covers the fuelled string recursions, not the worklists (C07) or graph routines (C20). C15_isolated is checked at run time only, not stated in Coq. char::is_uppercase in the snake/kebab arms of apply_to_variant is exact on ASCII names only (value compared for ASCII names, outcome for all). Numeric parse of min/max is compared through a python transcription of Rust's u64/f64 grammar.",
     "technique": "Rocq/Coq proof over hand-written model + correspondence check (extracted OCaml vs Rust harness) + CLI fuzzing oracle",
     "design_ref": "DESIGN.md section 5 C15, section 2.2",
 }
@@ -23,10 +23,10 @@ MANIFEST = {
 RULE = ("string level: one case = one input string of one function; exhaustive words over a 9-12 letter adversarial alphabet "
         "(ASCII letter, _, quote, backslash, parentheses, comma, =, space, 2-, 3- and 4-byte characters) up to length 3-4 (quick) / 4-5 (thorough), "
         "1-3 byte white space and delimiters inserted at and substituted for every character of typical attribute payloads, "
-        "random token soups, generated/mutated/unbalanced type strings, all prefixes of the fixed-offset tags; 9 naming rules x names. "
+        "random token soups, generated/mutated/unbalanced type strings, all prefixes of the fixed-offset tags; 9 naming rules x names and 8 variant rules x variant names. "
         "Non-trivial = the input contains a non-ASCII byte or a delimiter the function searches for. "
         "project level: one case = one source tree; generated exotic items, corpus files (plain, commandified, truncated, mutated), non-Rust text, "
-        "bounded deep nesting; isolation = base project with and without unparsable files. distinct = distinct inputs")
+        "bounded deep nesting; isolation = base project with and without unparsable (or non-UTF-8) files. distinct = distinct inputs")
 TRUSTED = [
     "python transcription of Rust's str::parse::<u64>/<f64> grammar (value of min/max only; not needed for panic-freedom)",
     "the token string handed to the attribute scanners is computed by the harness exactly as the code computes it (MetaList.tokens.to_string())",
@@ -36,8 +36,8 @@ TRUSTED = [
 ASSUMPTIONS = ["source files are valid UTF-8 (the property quantifies over UTF-8 files; read_to_string errors otherwise, exit 1)",
                "stack exhaustion inside syn on pathologically deep nesting is outside the model (bounded depths only are exercised)"]
 
-KF_MSG, KF_RENAME, KF_CAMEL = "C15-msg", "C15-rename", "C15-camel"
-SITE = {KF_MSG: "validator_parser.rs", KF_RENAME: "serde_parser.rs", KF_CAMEL: "serde-rename-rule"}
+KF_VARIANT = "C15-variant"
+SITE = {KF_VARIANT: "serde-rename-rule"}
 
 F64_RE = re.compile(r"^[+-]?(?:(?:\d+\.?\d*|\.\d+)(?:[eE][+-]?\d+)?|inf|infinity|nan)$", re.I)
 F64_NUM = re.compile(r"^[+-]?(?:\d+\.?\d*|\.\d+)(?:[eE][+-]?\d+)?$", re.A)
@@ -131,12 +131,7 @@ def eval_attr(kind, payloads):
         else:
             mval = [val[0], val[1] == "true", val[2]]
             corr = mval == impl
-        kf = None
-        if in_class:
-            kf = KF_MSG if kind == "validator" else KF_RENAME
-            # same class, other call site: behaves differently from the recorded defect
-            if impl_panic and SITE[kf] not in impl["PANIC"]:
-                corr = False
+        kf = None      # C15-msg and C15-rename are repaired: no class applies to the attribute scanners
         outs.append(Outcome(case, corr, ok, kf, {"tokens": o["tokens"], "impl": impl, "model": mval, "in_class": in_class},
                             nontrivial=nontrivial(c["payload"])))
     return outs, len(cases) - len(live)
@@ -214,8 +209,11 @@ def eval_naming(pairs):
         tag, val = model_outcome(m[0])
         impl = o["out"]
         ip = isinstance(impl, dict)
-        corr = (ip and tag == "panic") or (not ip and tag == "ok" and val == impl)
-        kf = KF_CAMEL if (m[1] == "true" and c["rule"] == "camelCase") else None
+        # char::is_uppercase (snake family of apply_to_variant) is exact in the model on ASCII names only
+        value_modelled = not (c["rule"].startswith("variant:") and ("snake" in c["rule"].lower() or "kebab" in c["rule"].lower())
+                              and any(ord(ch) > 127 for ch in c["name"]))
+        corr = (ip and tag == "panic") or (not ip and tag == "ok" and (val == impl or not value_modelled))
+        kf = KF_VARIANT if m[1] == "true" else None
         if kf and ip and SITE[kf] not in impl["PANIC"]:
             corr = False
         outs.append(Outcome(case, corr, not ip, kf, {"impl": impl, "model": val if tag == "ok" else tag},
@@ -253,15 +251,13 @@ def classify_failure(files, text):
     for o in inv:
         if not o.get("parses"):
             continue
-        checks += [("camel", x[2:] if x.startswith("r#") else x) for x in o["idents"]]
-        checks += [("validate", x) for x in o["validate"]] + [("serde", x) for x in o["serde"]]
+        checks += [("variant", x[2:] if x.startswith("r#") else x) for x in o.get("camel_variants", [])]
     if not checks:
         return None
     res = vlib.run_runner("c15-kf", [sx([k, t]) for k, t in checks], shards=1)
     hit = {k for (k, _), r in zip(checks, res) if r == "true"}
-    for kind, kf in (("camel", KF_CAMEL), ("validate", KF_MSG), ("serde", KF_RENAME)):
-        if kind in hit and SITE[kf] in site:
-            return kf
+    if "variant" in hit and SITE[KF_VARIANT] in site:
+        return KF_VARIANT
     return None
 
 
@@ -304,7 +300,7 @@ def run_isolation(args):
     res = []
     for files in (base, dict(base, **bad)):
         with vlib.Sandbox("c15i") as sb:
-            sb.write_files(files, under="proj/src")
+            sb.write_files({k: (bytes.fromhex(v["hex"]) if isinstance(v, dict) else v) for k, v in files.items()}, under="proj/src")
             cli = ["generate", "-p", sb.path("proj/src"), "-o", sb.path("out"), "--force"] + (["-v", "zod"] if mode == "zod" else [])
             st, out = sb.cli(cli, cwd=sb.path("proj"), timeout=60)
             snap = canon_tree(sb.snapshot("out")) if os.path.isdir(sb.path("out")) else {}
@@ -314,7 +310,7 @@ def run_isolation(args):
         # the base does not generate (judged by the project stream, where the same base is a case)
         return Outcome({"kind": tag, "mode": mode, "base": base, "bad": bad}, True, True, None,
                        {"exit_without": s1, "skipped": "base project does not generate"}, nontrivial=False)
-    reported = all(("Failed to parse" in o2 and os.path.basename(n) in o2) for n in bad)
+    reported = all((("Failed to parse" in o2 or "Failed to read" in o2) and os.path.basename(n) in o2) for n in bad)
     same = (s1 == s2) and (t1 == t2)
     ok = s1 in (0, 1) and s2 in (0, 1) and same and reported
     detail = {"exit_without": s1, "exit_with": s2, "same_output": t1 == t2, "reported": reported,
@@ -362,6 +358,8 @@ def isolation_cases(rep, rng):
     inv = vlib.run_harness("c15-inventory", [{"id": i, "src": t} for i, t in enumerate(G.NOT_RUST)], per_case_timeout=30)
     bads = [t for t, o in zip(G.NOT_RUST, inv) if o.get("parses") is False]
     rep.extra["unparsable_texts"] = len(bads)
+    # files that are not UTF-8 at all (outside the property's quantifier; skipped with a report since the C03-2 repair)
+    bads += [{"hex": "fffe00"}, {"hex": "666e206128297b7d0ac328"}, {"hex": "c3"}, {"hex": "2f2f20e9e8e0"}]
     bases = [BASE_PROJECT]
     for i in range(12 if quick else 60):
         g = G.RustGen(rng)
@@ -393,12 +391,16 @@ CORPUS_ATTR = {
               'rename = "a\\"b", skip_serializing_if = "x"', 'rename_all = "camelCase"', 'rename _all = "UPPERCASE"', 'x = "rename  _all"'],
 }
 CORPUS_NAMING = [("camelCase", "__"), ("camelCase", "été"), ("camelCase", ""), ("camelCase", "_　"), ("camelCase", "user_id"),
-                 ("PascalCase", "__"), ("event", "é-x"), ("kebab-case", "é_é"), ("camelCase", "aé")]
+                 ("PascalCase", "__"), ("event", "é-x"), ("kebab-case", "é_é"), ("camelCase", "aé"), ("event", "user:created/now"),
+                 ("variant:camelCase", "État"), ("variant:camelCase", "InProgress"), ("variant:SCREAMING_SNAKE_CASE", "InProgress"),
+                 ("variant:snake_case", "HTTPError"), ("variant:kebab-case", "État"), ("variant:camelCase", "Aé")]
 CORPUS_PROJECT = [
     ("kf-camel-underscores", {"lib.rs": "#[tauri::command]\nfn c(__: String) {}\n"}, "none"),
     ("kf-camel-nonascii", {"lib.rs": "#[tauri::command]\nfn c(été: String) {}\n"}, "zod"),
     ("kf-msg", {"lib.rs": "use serde::Serialize;\n#[derive(Serialize)] pub struct S { #[validate(length(min = 1, message = \"é\"))] pub a: String }\n#[tauri::command]\nfn c() -> S { todo!() }\n"}, "zod"),
     ("kf-rename", {"lib.rs": "use serde::Serialize;\n#[derive(Serialize)] pub struct S { #[serde(x = \"rename　　_all\")] pub a: String }\n#[tauri::command]\nfn c() -> S { todo!() }\n"}, "none"),
+    ("kf-variant", {"lib.rs": "use serde::Serialize;\n#[derive(Serialize)]\n#[serde(rename_all = \"camelCase\")]\npub enum E { État, Ok }\n#[tauri::command]\nfn c() -> E { todo!() }\n"}, "none"),
+    ("variant-ascii", {"lib.rs": "use serde::Serialize;\n#[derive(Serialize)]\n#[serde(rename_all = \"camelCase\")]\npub enum E { InProgress, #[serde(skip)] Hidden, État2 }\n#[tauri::command]\nfn c() -> E { todo!() }\n"}, "zod"),
     ("base", BASE_PROJECT, "none"),
     ("base", BASE_PROJECT, "zod"),
 ]
